@@ -88,6 +88,16 @@ type Check interface {
 	Run(t *tape.Tape, opt RunOpt) Result
 }
 
+// CrashChecker is implemented by checks for which a run that kills or hangs
+// the process is itself a violation of the property (C03). For all other checks
+// such a run is harness trouble (exit 2).
+type CrashChecker interface {
+	// CrashIsViolation returns the property id the crash counts against.
+	CrashIsViolation() string
+	// RunTimeout is the wall-clock backstop for a single run.
+	RunTimeout() float64
+}
+
 // Hash64 hashes strings into a signature.
 func Hash64(parts ...string) uint64 {
 	h := fnv.New64a()
@@ -169,6 +179,9 @@ type ReplayFile struct {
 	OrigLen   int         `json:"original_tape_len"`
 	Violation Violation   `json:"violation"`
 	Decoded   interface{} `json:"decoded,omitempty"`
+	// SeedOnly marks a run that killed or hung its process: there is no recorded
+	// tape; the run is regenerated from RunSeed in a child process.
+	SeedOnly bool `json:"seed_only,omitempty"`
 }
 
 // WriteReplay stores a replay file and returns its path.
